@@ -1,10 +1,12 @@
 import Tickit.Model.EvLoop
+import Tickit.Model.EvLoopMulti
 import Tickit.Model.EvLoopSpec
 import Tickit.Gen.EvLoop
 import Tickit.Driver.Common
 /-
   Engine `evloop` (C17, C18).  Operation and observation vocabulary: see harness/evloop.c.
-  The model observation is printed from `Tickit.EvLoop.applyOp`; the specification verdict comes from
+  The model observation is printed from `Tickit.EvLoop.World.step` (Model/EvLoopMulti.lean: `Tickit.EvLoop.applyOp`
+  on the instance operated on); the specification verdict comes from
   `Tickit.EvLoop.Spec.step` (Model/EvLoopSpec.lean) evaluated on the *implementation's* observation.
 -/
 namespace Tickit.Driver.EvLoopEngine
@@ -69,6 +71,12 @@ def parseOp (ts : List String) : Op :=
       | _, _ => .bad
   | [] => .bad
 
+def parseWOp (ts : List String) : WOp :=
+  match ts with
+  | ["inst", i] => match nat? i with | some i => if i < NINST then .inst i else .op .bad | none => .op .bad
+  | ["use", i] => match nat? i with | some i => if i < NINST then .use i else .op .bad | none => .op .bad
+  | _ => .op (parseOp ts)
+
 /-! ### printing -/
 
 def showInfo : Info → String
@@ -121,7 +129,7 @@ def ubOwner : Ub → Nat
   | .sigLoopThis => 18
   | _ => 17
 
-def showObs (st : St) (op : Op) (dead : Bool) : String :=
+def showObs (st : St) (op : Op) (dead : Bool) (leaks : List Nat) : String :=
   let evs := String.join (st.log.reverse.map fun e => showEv e ++ " ")
   let cut (crash : String) : String := if st.log.isEmpty then crash else evs ++ " <cut>"
   match st.status with
@@ -130,7 +138,7 @@ def showObs (st : St) (op : Op) (dead : Bool) : String :=
   | .outOfFuel => "MODEL-OUT-OF-FUEL"
   | .ok =>
     match op with
-    | .finish => s!"leaks={if (leaked st).isEmpty then 0 else 1}"
+    | .finish => s!"leaks={if leaks.isEmpty then 0 else 1}"
     | .bad => if dead then "dead" else "bad-op"
     | _ =>
       if dead && !isNew op then "dead"
@@ -140,7 +148,7 @@ def showObs (st : St) (op : Op) (dead : Bool) : String :=
 /-! ### the engine -/
 
 structure DSt where
-  m : St
+  m : World
   s : Spec.SSt
   started : Bool
 
@@ -148,30 +156,35 @@ def cfgOfSource : Config :=
   { ioFlagMask := Gen.EvLoop.ioFlagMask, timersPop := Gen.EvLoop.timersPop, errnoSaved := Gen.EvLoop.errnoSaved,
     pendingInit := Gen.EvLoop.pendingInit, reventsCleared := Gen.EvLoop.reventsCleared,
     invokeTypeSaved := Gen.EvLoop.invokeTypeSaved, sigSnapshot := Gen.EvLoop.sigSnapshot,
-    procSnapshot := Gen.EvLoop.procSnapshot }
+    procSnapshot := Gen.EvLoop.procSnapshot, laterCancelMarks := Gen.EvLoop.laterCancelMarks,
+    processLinked := Gen.EvLoop.processLinked }
 
 def step (d : DSt) (ts : List String) (impl : String) : DSt × String × String :=
-  let op := parseOp ts
-  let m0 := if isNew op then build cfgOfSource else d.m
-  let dead := !m0.alive
-  let m := applyOp m0 op
-  let obs := showObs m op dead
+  let wop := parseWOp ts
+  let op := match wop with | .op o => o | _ => .bad
+  let named := match wop with | .op _ => false | _ => true
+  let w0 := if isNew op then World.init cfgOfSource else d.m
+  -- an operation on an instance that does not exist (never built, destroyed) does nothing
+  let dead := !named && !w0.st.alive
+  let w := if isNew op then w0 else w0.step wop
+  let m := w.st
+  let obs := if named then showObs m (.clock 0) false [] else showObs m op dead w.leaked
   let why := match m.status with
-    | .ub w => ubName w
+    | .ub x => ubName x
     | .killed s => s!"killed by signal {s}"
     | _ =>
       if op = .finish then
-        ", ".intercalate ((leaked m).map fun a =>
-          let w := m.getW a
-          s!"{Spec.kindName w.type} {w.slot} was never released")
+        ", ".intercalate (w.leaked.map fun a =>
+          let x := m.getW a
+          s!"{Spec.kindName x.type} {x.slot} was never released")
       else ""
   let owner := match m.status with
-    | .ub w => ubOwner w
+    | .ub x => ubOwner x
     | _ => 0
-  let (s, verdict) := Spec.step d.s op (toks impl) why owner
-  ({ m := m, s := s, started := true }, obs, verdict)
+  let (s, verdict) := Spec.step d.s wop (toks impl) why owner
+  ({ m := w, s := s, started := true }, obs, verdict)
 
 def engine : Engine :=
-  { σ := DSt, init := { m := { cfg := cfgOfSource }, s := Spec.init, started := false }, step := step }
+  { σ := DSt, init := { m := { st := { cfg := cfgOfSource } }, s := Spec.init, started := false }, step := step }
 
 end Tickit.Driver.EvLoopEngine
